@@ -201,7 +201,7 @@ func clip(s string) string {
 // hand-written valid prefixes (GUIDE.md, the repository's tests) mixed with generated ones
 var fixedProgs = []string{
 	"2d6", "d20", "d20 + 5", "3d6kh2", "1 + 2 * 3", "'abc'", "x = 5", "[1,2,3]", "{'a': 1}", "(1+2)", "力量 = 60; 力量",
-	"^st力量60敏捷70", "^st 力量:60 敏捷:70", "^st 力量+1", "^st &手枪=1d6", "^st 智力=80,知识=90",
+	"^st力量60敏捷70", "^st力量:60 敏捷:70", "^st力量+1", "^st&手枪=1d6", "^st智力=80,知识=90", "^st力量+1d6 敏捷-2", "^st力量*2:60",
 	"if 1 { 2 }", "func g(x) { x + 1 }; g(2)", "`a{1+1}b`", "&c = 1d1 + 2; c", "[1,2,3][1]", "x = [1,2]; x[0]", "5", "f", "b2", "p", "2a5", "2c5",
 	"1 ? 2 : 3", "0 ? 2, 1 ? 3", "[1,2,3].len()", "x = {'k': [1,2]}; x.k", "1 || 2", "null ?? 3", "-5", "1 < 2",
 }
